@@ -1132,6 +1132,7 @@ spif_dlinked_list_iterator_show(spif_dlinked_list_iterator_t self, spif_charptr_
 static spif_cmp_t
 spif_dlinked_list_iterator_comp(spif_dlinked_list_iterator_t self, spif_dlinked_list_iterator_t other)
 {
+    SPIF_OBJ_COMP_CHECK_NULL(self, other);
     return spif_dlinked_list_comp(self->subject, other->subject);
 }
 
